@@ -78,7 +78,7 @@ export function bFamily(depth) {
     out.push([b.Object({}), ObjT([]), "b.Object({})"]);
     out.push([b.Object({ constructor: leaves[0][0], toString: leaves[1][0] }), ObjT([Prop("constructor", P("string")), Prop("toString", P("number"))]), "b.Object({constructor: b.String(), toString: b.Number()})"]);
     for (let i = 0; i < objLeaves.length; i++)
-      for (let j = i + 1; j < objLeaves.length; j += 3) out.push([buntyped.Union(objLeaves[i][0], objLeaves[j][0]), U(objLeaves[i][1], objLeaves[j][1]), `buntyped.Union(${objLeaves[i][2]}, ${objLeaves[j][2]})`]);
+      for (let j = i + 1; j < objLeaves.length; j += 3) out.push([buntyped.Union(objLeaves[i][0], objLeaves[j][0]), U(objLeaves[i][1], objLeaves[j][1]), `buntyped.Union(${objLeaves[i][2]}, ${objLeaves[j][2]})`, buntyped.Union(objLeaves[j][0], objLeaves[i][0])]);
     return out;
   };
   let all = [...leaves];
@@ -87,5 +87,5 @@ export function bFamily(depth) {
     cur = level(d === 1 ? leaves : cur.filter((_, i) => i % 7 === SEED % 7 || TIER === "thorough").slice(0, 120));
     all = all.concat(cur);
   }
-  return { client, items: all.map(([parser, spec, src]) => ({ parser, spec, src })) };
+  return { client, items: all.map(([parser, spec, src, flipped]) => ({ parser, spec, src, flipped })) };
 }
